@@ -21,10 +21,11 @@ CONSTANTS Shift,       \* cfg files cannot hold negative numbers: sets below are
 
 VARIABLES xp,    \* nodes (integers)
           fp,    \* data (integers)
+          q,     \* query points (Rats), a function of xp fixed at Init
           pc,    \* "calls" | "done"
           todo,  \* routines still to call
           res    \* routine -> sequence of results, one per query
-vars == <<xp, fp, pc, todo, res>>
+vars == <<xp, fp, q, pc, todo, res>>
 
 -----------------------------------------------------------------------------
 RECURSIVE GapSeqs(_)
@@ -45,10 +46,12 @@ DataFor(s) == LET n == Len(s) IN
 N == Len(xp)
 XP == [k \in 1..N |-> R(xp[k])]
 FP == [k \in 1..N |-> R(fp[k])]
-QLo == QDen * (xp[1] - 2 * (xp[2] - xp[1])) - Margin
-QHi == QDen * (xp[N] + 2 * (xp[N] - xp[N - 1])) + Margin
-Q == [j \in 1..(QHi - QLo + 1) |-> Norm(QLo + j - 1, QDen)]
-NQ == Len(Q)
+QueriesFor(s) == LET n == Len(s)
+                     lo == QDen * (s[1] - 2 * (s[2] - s[1])) - Margin
+                     hi == QDen * (s[n] + 2 * (s[n] - s[n - 1])) + Margin
+                 IN  [j \in 1..(hi - lo + 1) |-> Norm(lo + j - 1, QDen)]
+Q == q
+NQ == Len(q)
 
 Ops == <<"interp", "dot_interp", "vertical_interpolation", "sl_vertical_interp",
          "linear_extrap", "safe_extrap_1", "safe_extrap_2">>
@@ -56,29 +59,36 @@ Ops == <<"interp", "dot_interp", "vertical_interpolation", "sl_vertical_interp",
 -----------------------------------------------------------------------------
 Init == /\ xp \in NodeSets
         /\ fp \in DataFor(xp)
+        /\ q = QueriesFor(xp)
         /\ pc = "calls" /\ todo = Ops /\ res = [o \in {} |-> <<>>]
 
-Do(name, t) == /\ pc = "calls" /\ todo # <<>> /\ Head(todo) = name
-               /\ res' = [o \in DOMAIN res \cup {name} |-> IF o = name THEN t ELSE res[o]]
-               /\ todo' = Tail(todo)
-               /\ pc' = IF Len(todo) = 1 THEN "done" ELSE "calls"
-               /\ UNCHANGED <<xp, fp>>
+Turn(name) == pc = "calls" /\ todo # <<>> /\ Head(todo) = name
+Record(name, t) == /\ res' = [o \in DOMAIN res \cup {name} |-> IF o = name THEN t ELSE res[o]]
+                   /\ todo' = Tail(todo)
+                   /\ pc' = IF Len(todo) = 1 THEN "done" ELSE "calls"
+                   /\ UNCHANGED <<xp, fp, q>>
 
 (* vertical_interpolation.interp on the default platform: jnp.interp *)
-CallInterp == Do("interp", [j \in 1..NQ |-> ConstInterp(XP, FP, Q[j])])
+CallInterp == /\ Turn("interp")
+              /\ Record("interp", [j \in 1..NQ |-> ConstInterp(XP, FP, Q[j])])
 (* vertical_interpolation._dot_interp: what interp dispatches to on accelerators *)
-CallDotInterp == Do("dot_interp", [j \in 1..NQ |-> DotInterp(XP, FP, Q[j])])
+CallDotInterp == /\ Turn("dot_interp")
+                 /\ Record("dot_interp", [j \in 1..NQ |-> DotInterp(XP, FP, Q[j])])
 (* vertical_interpolation.vertical_interpolation: interp behind a public name *)
 CallVerticalInterpolation ==
-  Do("vertical_interpolation", [j \in 1..NQ |-> ConstInterp(XP, FP, Q[j])])
+  /\ Turn("vertical_interpolation")
+  /\ Record("vertical_interpolation", [j \in 1..NQ |-> ConstInterp(XP, FP, Q[j])])
 (* primitive_equations._vertical_interp: interp mapped over columns *)
 CallSLVerticalInterp ==
-  Do("sl_vertical_interp", [j \in 1..NQ |-> ConstInterp(XP, FP, Q[j])])
+  /\ Turn("sl_vertical_interp")
+  /\ Record("sl_vertical_interp", [j \in 1..NQ |-> ConstInterp(XP, FP, Q[j])])
 (* vertical_interpolation.linear_interp_with_linear_extrap *)
-CallLinearExtrap == Do("linear_extrap", [j \in 1..NQ |-> LinearExtrap(XP, FP, Q[j])])
+CallLinearExtrap == /\ Turn("linear_extrap")
+                    /\ Record("linear_extrap", [j \in 1..NQ |-> LinearExtrap(XP, FP, Q[j])])
 (* vertical_interpolation._linear_interp_with_safe_extrap(n = m) *)
-CallSafeExtrap(m) == Do(IF m = 1 THEN "safe_extrap_1" ELSE "safe_extrap_2",
-                        [j \in 1..NQ |-> SafeExtrap(XP, FP, Q[j], m)])
+SafeName(m) == IF m = 1 THEN "safe_extrap_1" ELSE "safe_extrap_2"
+CallSafeExtrap(m) == /\ Turn(SafeName(m))
+                     /\ Record(SafeName(m), [j \in 1..NQ |-> SafeExtrap(XP, FP, Q[j], m)])
 
 Next == \/ CallInterp \/ CallDotInterp \/ CallVerticalInterpolation \/ CallSLVerticalInterp
         \/ CallLinearExtrap \/ CallSafeExtrap(1) \/ CallSafeExtrap(2)
